@@ -1005,7 +1005,7 @@ func (w *world) buildStale(t *tr.W) *stScript {
 	sc.vBad = w.mine(tipM, w.mtp(tipM)-int64(rng.Intn(2)), "mtp")
 	// the competing branch: its timestamps run ahead of the main chain's or lag behind them
 	sc.f = sc.T - 2 - rng.Intn(8)
-	late := rng.Intn(2) == 0
+	late := rng.Intn(5) < 3
 	if late {
 		t.Hit("restale.branch.timestamps-ahead")
 	} else {
